@@ -39,6 +39,9 @@ def to_chain_structure(qc, setup="linear"):
         "BERKELEY",
         "SWAPalpha",
     ]
+    # Two-target gates that distinguish their targets: they are routed like
+    # the exchange-type gates, but the two targets keep their order.
+    ordered_gates = ["RZX"]
     N = qc.N
 
     for gate in qc.gates:
@@ -226,9 +229,14 @@ def to_chain_structure(qc, setup="linear"):
                     **_condition(gate),
                 )
 
-        elif gate.name in swap_gates:
+        elif gate.name in swap_gates or gate.name in ordered_gates:
             start = min([gate.targets[0], gate.targets[1]])
             end = max([gate.targets[0], gate.targets[1]])
+            # The forward ladder ends with the qubits in the order
+            # (start, end), the backward ladder with (end, start).
+            ordered = gate.name in ordered_gates
+            flip_fwd = ordered and gate.targets[0] == end
+            flip_bwd = ordered and gate.targets[0] == start
 
             if setup == "linear" or (
                 setup == "circular" and (end - start) <= N // 2
@@ -238,7 +246,7 @@ def to_chain_structure(qc, setup="linear"):
                     if start + end - i - i == 1 and (end - start + 1) % 2 == 0:
                         qc_t.add_gate(
                             gate.name,
-                            [i, i + 1],
+                            [i + 1, i] if flip_fwd else [i, i + 1],
                             arg_value=gate.arg_value,
                             **_condition(gate),
                         )
@@ -248,7 +256,7 @@ def to_chain_structure(qc, setup="linear"):
                         qc_t.add_gate("SWAP", [i, i + 1])
                         qc_t.add_gate(
                             gate.name,
-                            [i + 1, i + 2],
+                            [i + 2, i + 1] if flip_fwd else [i + 1, i + 2],
                             arg_value=gate.arg_value,
                             **_condition(gate),
                         )
@@ -271,7 +279,7 @@ def to_chain_structure(qc, setup="linear"):
                     ):
                         temp.add_gate(
                             gate.name,
-                            [i, i + 1],
+                            [i + 1, i] if flip_bwd else [i, i + 1],
                             arg_value=gate.arg_value,
                             **_condition(gate),
                         )
@@ -283,7 +291,7 @@ def to_chain_structure(qc, setup="linear"):
                         temp.add_gate("SWAP", [i, i + 1])
                         temp.add_gate(
                             gate.name,
-                            [i + 1, i + 2],
+                            [i + 2, i + 1] if flip_bwd else [i + 1, i + 2],
                             arg_value=gate.arg_value,
                             **_condition(gate),
                         )
